@@ -13,6 +13,8 @@ def build(run):
     c, reg = c13.tetrahedra_frequencies_safety()
     run.verify_c([c], files=FILES, registry=reg)
     run.verify_c([c13.derivative_dynmat_safety()], files=FILES)
+    c, reg = c13.qpoints_driver_safety()
+    run.verify_c([c], files=FILES, registry=reg)
     # "same result as the reference semantics": the functional contracts of the kernels (proved in the
     # per-property checks) are part of this property too
     from contracts import c_svecs as SV
